@@ -146,6 +146,8 @@ def sortedCheck (d : Design) : Bool :=
     netlist has such a presentation (the harness dumps in that order); a cyclic one has none. -/
 def Sorted (d : Design) : Prop := sortedCheck d = true
 
+instance (d : Design) : Decidable (Sorted d) := by unfold Sorted; infer_instance
+
 abbrev Acyclic (d : Design) : Prop := Sorted d
 
 end Spydr.Hier
